@@ -4,6 +4,7 @@ import (
 	"bufio"
 	"encoding/json"
 	"os"
+	"runtime/debug"
 	"strings"
 
 	"verif/harness/internal/difflab"
@@ -12,6 +13,8 @@ import (
 // vx worker: serves requests that call the real code, one JSON object per line.
 func init() {
 	commands["worker"] = func(args []string) {
+		// a runaway recursion in the code under test must die quickly (fatal stack overflow), not after filling 1 GB
+		debug.SetMaxStack(48 << 20)
 		in := bufio.NewReaderSize(os.Stdin, 1<<20)
 		out := bufio.NewWriter(os.Stdout)
 		for {
